@@ -282,9 +282,15 @@ def parse_locals(stmts, ctx):
             if i + 1 >= len(stmts):
                 raise TranslateError("index vector is not filled in " + ctx)
             f = drop_namespaces(stmts[i + 1])
-            want = ["for", "(", "IndexType", "i", "=", "0", ";", "i", "<", mat, ".", "cols", "(", ")", ";", "i", "++", ")",
-                    name, "[", "i", "]", "=", "i"]
-            if f != want:
+            # the loop variable is free to be named anything, to be incremented before or after, to be compared with
+            # `<` or `!=`; std::iota(name.begin(), name.end(), 0) says the same
+            v = f[3] if len(f) > 3 and is_ident(f[3]) else "i"
+            head = ["for", "(", "IndexType", v, "=", "0", ";", v]
+            tail = [mat, ".", "cols", "(", ")", ";"]
+            fill = [")", name, "[", v, "]", "=", v]
+            wants = [head + [cmp] + tail + inc + fill for cmp in ("<", "!=") for inc in ([v, "++"], ["++", v])]
+            wants.append(["iota", "(", name, ".", "begin", "(", ")", ",", name, ".", "end", "(", ")", ",", "0", ")"])
+            if f not in wants:
                 raise TranslateError("index vector %s is not filled with 0..cols-1 in %s: %s" % (name, ctx, " ".join(f)))
             locs.append((name, ("EIndexSeq", ("EId", mat))))
             i += 2
@@ -701,6 +707,16 @@ MUTATIONS = [
     (BASE, r", distance\(other\.distance\)", ", distance(other.distance), /*dup*/ features(other.features)",
      "copy constructor lists a field twice"),
     (BASE, r", begin\(other\.begin\)", ", begin(other.end)", "copy constructor copies end into begin"),
+    (CHAIN, r"for \(IndexType i = 0; i < matrix\.cols\(\); i\+\+\)\s*indices\[i\] = i;",
+     "for (IndexType column = 0; column != matrix.cols(); ++column)\n            indices[column] = column;", None),
+    (CHAIN, r"for \(IndexType i = 0; i < matrix\.cols\(\); i\+\+\)\s*indices\[i\] = i;",
+     "for (IndexType i = 0; i < matrix.cols(); i++)\n            indices[i] = matrix.cols() - 1 - i;",
+     "the matrix form numbers the samples backwards"),
+    (CHAIN, r"(std::vector<IndexType> indices\(matrix\.cols\(\)\);)",
+     "if (matrix.rows() > matrix.cols())\n            return embedUsing(DenseMatrix(matrix.transpose()));\n        \\1",
+     "the matrix form transposes a tall feature matrix"),
+    (CHAIN, r"eigen_features_callback fcb\(matrix\);", "const DenseMatrix centred = matrix.colwise() - matrix.rowwise().mean();\n        eigen_features_callback fcb(centred);",
+     "the matrix form hands another matrix to the features callback"),
     (METHODS, r"begin, end, kernel, distance, features, pmap, ctx\);", "begin, end, kernel, distance, features, pmap, ctx );", None),
     (METHODS, r"begin, end, kernel, distance, features, pmap, ctx\);", "end, begin, kernel, distance, features, pmap, ctx);",
      "initialize swaps begin and end"),
